@@ -587,7 +587,7 @@ def stored_form(kind, data):
     raise ValueError(kind)
 
 
-def run_cache_cases(cases, scratch, timeout=900, per_cmd=8):
+def run_cache_cases(cases, scratch, timeout=900, per_cmd=15):
     """cases: [(bs, f, table, ops)].  Runs each sequence on fresh readers (one harness process, one
     command at a time where an offset depends on the previous answer).  Returns (answers, tables, ops) with
     the ops made concrete, sequences cut after a panic / error / hang (an operation that does not answer
